@@ -93,12 +93,26 @@ func FromBytes(data []byte) (*Labels, error) {
 // length or missing bytes.
 var ErrBufferTooShort = errors.New("rfc1035label: buffer too short")
 
+// maxNameLength is the maximum length of a domain name on the wire, counting
+// the length octet of every label and the terminating zero octet (RFC 1035,
+// Sections 2.3.4 and 3.1).
+const maxNameLength = 255
+
+// ErrNameTooLong is returned when a domain name, after following compression
+// pointers, is longer than the 255 octets allowed by RFC 1035.
+var ErrNameTooLong = errors.New("rfc1035label: domain name longer than 255 octets")
+
 // fromBytes decodes a serialized stream and returns a list of labels
 func labelsFromBytes(buf []byte) ([]string, error) {
 	var (
-		labels          = make([]string, 0)
-		pos, oldPos     int
-		label           string
+		labels      = make([]string, 0)
+		pos, oldPos int
+		// label collects the dot-separated labels of the name being read;
+		// nameLength is the length of that name on the wire so far. Bounding
+		// it keeps the cost of a name, and hence of every compression
+		// pointer, constant.
+		label           = make([]byte, 0, maxNameLength)
+		nameLength      int
 		handlingPointer bool
 	)
 
@@ -106,18 +120,18 @@ func labelsFromBytes(buf []byte) ([]string, error) {
 		if pos >= len(buf) {
 			// interpret label without trailing zero-length byte as a partial
 			// domain name field as per RFC 4704 Section 4.2
-			if label != "" {
-				labels = append(labels, label)
+			if len(label) != 0 {
+				labels = append(labels, string(label))
 			}
 
 			break
 		}
 		length := int(buf[pos])
 		pos++
-		var chunk string
 		if length == 0 {
-			labels = append(labels, label)
-			label = ""
+			labels = append(labels, string(label))
+			label = label[:0]
+			nameLength = 0
 			if handlingPointer {
 				pos = oldPos
 				handlingPointer = false
@@ -138,11 +152,14 @@ func labelsFromBytes(buf []byte) ([]string, error) {
 			if pos+length > len(buf) {
 				return nil, ErrBufferTooShort
 			}
-			chunk = string(buf[pos : pos+length])
-			if label != "" {
-				label += "."
+			nameLength += 1 + length
+			if nameLength+1 > maxNameLength {
+				return nil, ErrNameTooLong
 			}
-			label += chunk
+			if len(label) != 0 {
+				label = append(label, '.')
+			}
+			label = append(label, buf[pos:pos+length]...)
 			pos += length
 		}
 	}
